@@ -121,7 +121,7 @@ def main():
         }],
         "checks": checks,
         "not_applicable": na,
-        "notes": "Exit codes of every check: 0 all obligations discharged; 1 VIOLATION (counterexample reproduced natively); 2 inconclusive (timeout/OOM/unsupported construct/unwinding bound/non-reproducing counterexample) - never reported as a pass. known_findings.json lists the genuine defects found (all four repaired by 'fix:' commits in /repo).",
+        "notes": "Exit codes of every check: 0 all obligations discharged; 1 VIOLATION (counterexample reproduced natively in dev and release semantics; for harnesses that replace a function of /repo by a stub the solver's counterexample is reported at model level, see DESIGN section 2); 2 inconclusive (timeout/OOM/unsupported construct/unwinding bound/non-reproducing counterexample) - never reported as a pass. known_findings.json lists the genuine defects found (all four repaired by 'fix:' commits in /repo).",
     }
     json.dump(m, open(os.path.join(ROOT, "MANIFEST.json"), "w"), indent=1)
     print("checks:", [c["property_id"] for c in checks], "n/a:", [x["property_id"] for x in na])
